@@ -32,11 +32,17 @@ Init == /\ ct \in Range(CTypes) /\ depth \in 0..MaxDepth /\ name \in DOMAIN Name
                n == name + 3 * depth + 5 * ix(<<"none", "str", "path", "fspath">>, audio) + 7 * ix(<<"default", "format_aoef", "format_none", "typed">>, call)
                     + 11 * ix(<<"inside", "outside", "outside_prefix", "outside_case">>, place) + 13 * ix(<<"abs", "rel", "rel_first">>, bkind) + ix(CTypes, ct)
            IN  n % Stride = 0
-        /\ dots \in BOOLEAN /\ (dots => depth = 1 /\ place = "inside" /\ akind = "abs" /\ bkind = "abs")
+        \* dots: which special directory lies below the audio directory: "dotdot" = a ".." component, "dotdir" = a first component
+        \* that begins with a dot (.cache), "tilde" = a first component that begins with a tilde (~user) -- all legal, all stored
+        \* and relocated verbatim
+        /\ dots \in {"no", "dotdot", "dotdir", "tilde"} /\ (dots # "no" => depth = 1 /\ place = "inside" /\ (akind = "abs" \/ (dots = "tilde" /\ audio = "none")) /\ bkind = "abs")
 Go == ph = "in" /\ ph' = "out" /\ UNCHANGED <<ct, depth, name, audio, place, akind, bkind, dots, call>>
 Next == Go
 Spec == Init /\ [][Next]_vars
-Dir == IF dots THEN <<"site_a", "..", "shared">> ELSE SubSeq(DirParts, 1, depth)
+Dir == CASE dots = "dotdot" -> <<"site_a", "..", "shared">>
+         [] dots = "dotdir" -> <<".cache", "night 1">>
+         [] dots = "tilde"  -> <<"~", "x">>
+         [] OTHER -> SubSeq(DirParts, 1, depth)
 Export == ph = "out" => PrintT(<<"CASE", ToJson(World(ct, Sw0) @@ [sw |-> Sw0, pattern |-> "alt", audio |-> audio, place |-> place, akind |-> akind, bkind |-> bkind, call |-> call,
                                                                   dir |-> Dir, file |-> Names[name], cycles |-> 1])>>)
 \* laws of the path algebra (A = some root, x = Dir \o <<file>>)
